@@ -325,9 +325,12 @@ class Evaluator:
 
 
 def tree_depth(nd):
-    if not isinstance(nd, dict) or nd["k"] in ("var", "const"):
+    if not isinstance(nd, dict):
         return 0
-    return 1 + max(tree_depth(nd[c]) for c in ("a", "l", "r") if c in nd)
+    kids = [nd[c] for c in ("a", "l", "r") if c in nd]
+    if not kids:
+        return 0
+    return 1 + max(tree_depth(c) for c in kids)
 
 
 def has_nontrivial_composition(nd):
